@@ -52,7 +52,7 @@ Requests(op) ==
      [] op = "get_function_x" -> R3(op, Products, Types, Transfers)
      [] op = "get_function_e" -> R3(op, Products, Types, Exprs)
      [] op = "get_function_ex" -> {Req(op, <<s, t, e, x>>, 0, "") : s \in Products, t \in Types, e \in Exprs, x \in Transfers}
-     [] op \in {"get_product", "get_sum"} -> {Req(op, s, 0, "") : s \in SeqsUpTo(Types, MaxSeq)}
+     [] op \in {"get_product", "get_sum", "get_product_ref", "get_sum_ref"} -> {Req(op, s, 0, "") : s \in SeqsUpTo(Types, MaxSeq)}
      [] op \in {"get_product_of", "get_sum_of"} -> R1(op, Products \cup Sums)
      [] op = "get_forall" -> R2(op, Products, Types)
      [] op = "get_ptr_to_member" -> R2(op, Types, Types)
